@@ -1,6 +1,7 @@
 package c11
 
 import (
+	"fmt"
 	"sort"
 	"strings"
 
@@ -21,6 +22,22 @@ type Case struct {
 	// FlagDir is the directive after which the real start must have got for
 	// the case to count as accepted (the later of the two in directive order).
 	FlagDir string `json:"flag_dir,omitempty"`
+	// Keys selects the site block's address list in the start phase: 0 a
+	// single loopback address; 1 and 2 two keys (a name that qualifies for
+	// managed TLS and one that does not, in either order), because a
+	// directive is set up once per key and may judge the keys differently.
+	Keys int `json:"keys,omitempty"`
+}
+
+// Addr renders the address list of the case's site block.
+func (k *Case) Addr(p1, p2 int) string {
+	switch k.Keys {
+	case 1:
+		return fmt.Sprintf("sub.a.verif.test:%d, localhost:%d", p1, p2)
+	case 2:
+		return fmt.Sprintf("localhost:%d, sub.a.verif.test:%d", p2, p1)
+	}
+	return fmt.Sprintf("127.0.0.1:%d", p1)
 }
 
 const addrPlaceholder = "127.0.0.1:@PORT@"
@@ -330,6 +347,24 @@ func pickHeads(p1 []*Case, acc map[int]bool, max int) [][]string {
 	}
 	if !seen["/p"] {
 		heads = append(heads, []string{"/p"})
+	}
+	// one accepted head that names a network peer, if there is any (the
+	// shortest): sub-directives that make the setup talk to that peer need one
+	var peer []string
+	for _, k := range p1 {
+		if k.Block || !acc[k.ID] || len(k.Args) == 0 || !strings.Contains(strings.Join(k.Args, " "), "127.0.0.1:1") {
+			continue
+		}
+		if seen[strings.Join(k.Args, "\x00")] {
+			peer = nil
+			break
+		}
+		if peer == nil || len(k.Args) < len(peer) {
+			peer = k.Args
+		}
+	}
+	if peer != nil {
+		heads = append(heads, peer)
 	}
 	return heads
 }
